@@ -321,6 +321,21 @@ def defer_completion_order_machines():
         out.append((name, md, [ops]))
     return out
 
+def root_history_machines():
+    """a history policy on the outermost machine and a restart (seeded C03e): back / back11 apply their history policy
+    only when a machine is entered as a submachine - start() after stop() begins in the initial states again and enters
+    exactly those; what current_state / get_state_by_id / the visitors report must be the states that were entered"""
+    out = []
+    for name, hist in (("root_history_restart_always", "always"), ("root_history_restart_shallow", ["shallow", 4])):
+        root = machine([state(zone=0), state(zone=0), state(zone=1), state(zone=1)], [0, 2],
+                       [row(1, 0, 4, 1, act="call"), row(2, 1, 4, 0, act="call"), row(3, 2, 5, 3, act="call"), row(4, 3, 5, 2, act="call")],
+                       hist=hist)
+        md = mdef(root, 2)
+        ops = [("start", [], []), ("process", 4, 1, [], []), ("process", 5, 2, [], []), ("stop", []), ("start", [], []),
+               ("process", 4, 3, [], []), ("process", 5, 4, [], []), ("stop", []), ("start", [], []), ("process", 5, 5, [], [])]
+        out.append((name, md, [ops], ["back", "back_fct", "back11"]))
+    return out
+
 def flag_machines():
     """a flag carried only by a substate of a submachine; the enclosing machine leaves the submachine by a row with an
     action into a flagged simple state: what is_flag_active answers inside the action and the target's entry must follow
@@ -435,6 +450,30 @@ def copy_history_machines():
             out.append(("%shist_%s" % ({"copy": "copy", "assign": "assign", "move": "move", "saveload": "save"}[mode], hname), md, opss))
     return out
 
+def copy_pool_counter_machines():
+    """backmp11: a copy taken while a deferred occurrence is pending must carry the pool's sequence counter along with
+    the occurrences (seeded C15e): Busy defers e6; the source processes n events before e6 is stored, is copied (or
+    assigned to a target that has processed m events of its own), then e7 leaves Busy on both objects - both must
+    dispatch the stored e6 in that very call. Every n, m in 0..3: the stale-counter coincidence needs n = m + 1"""
+    def P(k, e, pay):
+        return ("on", k, ("process", e, pay, [], []))
+    root = machine([state(), state(defers=[6]), state()], [0],
+                   [row(1, 0, 4, 1), row(2, 1, 5, "none", act="call"), row(3, 1, 7, 2, act="call"),
+                    row(4, 2, 6, "none", act="call"), row(5, 2, 5, "none", act="call")])
+    md = mdef(root, 4)
+    opss = []
+    for n in range(4):
+        ops = [("start", [], []), P(0, 4, 1)] + [P(0, 5, 10 + i) for i in range(n)] + [P(0, 6, 20), ("copy", 1, 0)]
+        ops += [P(0, 7, 30), P(1, 7, 31), P(0, 5, 32), P(1, 5, 33)]
+        opss.append(ops)
+    for n in range(1, 4):
+        m = n - 1
+        ops = [("start", [], []), ("copy", 1, 0), P(1, 4, 2)] + [P(1, 5, 40 + i) for i in range(m)]
+        ops += [P(0, 4, 1)] + [P(0, 5, 10 + i) for i in range(n)] + [P(0, 6, 20), ("assign", 1, 0)]
+        ops += [P(0, 7, 30), P(1, 7, 31), P(0, 5, 32), P(1, 5, 33)]
+        opss.append(ops)
+    return [("copy_pool_counter", md, opss, ["mp11", "mp11_fct", "mp11_fpa"])]
+
 def save_pseudo_machines():
     """saved while a state with the explicit_entry tag (entered directly, twice) is active, and - a second machine - after
     leaving through an exit pseudo state: their opted-in data must come back like everybody else's"""
@@ -492,7 +531,7 @@ def rowkind_machines():
 def main():
     os.makedirs(os.path.join(VERIF, "corpus"), exist_ok=True)
     n = 0
-    for item in fwd_machines() + ortho_machines() + defer_code_machines() + defer_ortho_reject_machines() + defer_action_machines() + base_event_machines() + block_machines() + pseudo_machines() + fork_machines() + explicit_completion_machines() + completion_ortho_defer_machines() + defer_completion_order_machines() + flag_machines() + throw_machines() + throw_in_pool_machines() + throw_nested_machines() + copy_history_machines() + save_pseudo_machines() + rowkind_machines():
+    for item in fwd_machines() + ortho_machines() + defer_code_machines() + defer_ortho_reject_machines() + defer_action_machines() + base_event_machines() + block_machines() + pseudo_machines() + fork_machines() + explicit_completion_machines() + completion_ortho_defer_machines() + defer_completion_order_machines() + root_history_machines() + flag_machines() + throw_machines() + throw_in_pool_machines() + throw_nested_machines() + copy_history_machines() + copy_pool_counter_machines() + save_pseudo_machines() + rowkind_machines():
         name, md, opss = item[:3]
         save(name, md, opss, cfgs=item[3] if len(item) > 3 else None)
         n += 1
